@@ -29,7 +29,7 @@ def parked_backlog():
 
 def tls_probe():
     return ["0 spawn", "1 spawn", "2 spawn", "0 setReporter 0", "1 root r 72 1 0 1", "1 child1 c 63 r", "1 scope r", "1 localEnter 6c", "1 tlsProbe c", "1 exit",
-            "2 tlsProbe nosuch", "2 exit", "0 drop r", "0 cycle", "0 cycle"]
+            "2 tlsProbe nosuch", "2 exit", "0 drop r", "0 cycle", "0 cycle", "0 probeStats"]
 
 
 def extra(r):
@@ -52,3 +52,12 @@ def run(v, tier, seed, replay):
                                       nontrivial=lambda lines, tr: True,
                                       assumptions=["blocking inside the allocator, the OS or parking_lot is outside the model; every call is run under an 8 s deadline",
                                                    "precondition of C07: guards are released in reverse order of creation on their own thread (enforced by the guard stack of the harness)"])
+    # D18 (fixed): SpanContext::random() / TraceId::random() / SpanId::random() called from a thread-local destructor that runs
+    # after rand's own thread-local generator was destroyed
+    if impl is not None and not replay:
+        for (kind, tag, lines, names), outs in zip(cases, impl):
+            if tag == "nomodel/tls-teardown" and outs:
+                last = outs[-1]
+                if not last.startswith("probe ") or "random_panics=0" not in last or "random_runs=0" in last:
+                    v.violation("SpanContext::random() / TraceId::random() / SpanId::random() panicked when called while the thread's local storage was being torn down (%s)" % last,
+                                {"program": lines, "stream": "wild", "implementation_transcript": outs})
